@@ -95,6 +95,8 @@ impl PublicInput {
     pub fn get_hash(&self, n_verifier_friendly_commitment_layers: Felt) -> Felt {
         let mut main_page_hash = FELT_0;
         for memory in self.main_page.iter() {
+            #[cfg(swiftness_verif)]
+            swiftness_transcript::verif::tick("air.page_hash", 2);
             main_page_hash = pedersen_hash(&main_page_hash, &memory.address);
             main_page_hash = pedersen_hash(&main_page_hash, &memory.value);
         }
